@@ -479,7 +479,7 @@ def m_set(I, args, kwargs):
     if not args:
         return I.alloc(SetCell())
     items = I.iter_concrete(args[0])
-    return I.alloc(SetCell(items=items))
+    return I.alloc(SetCell(items=[set_key(I, x) for x in items]))
 
 
 def m_dict(I, args, kwargs):
@@ -955,6 +955,8 @@ def build_models(I):
     reg(_dsl.rest, m_rest)
     reg(_dsl.at_end, m_at_end)
     reg(_dsl.clsof, m_clsof)
+    reg(_dsl.set_keys, m_set_keys)
+    reg(_dsl.seq_contains, m_seq_contains)
     reg(_dsl.list_of, lambda I, a, k: a[0])
     reg(_dsl.is_prefix, m_is_prefix)
     reg(_dsl.le_int, m_le_int)
@@ -1466,17 +1468,33 @@ def _(I, sv, args, kwargs):
 
 
 # set ---------------------------------------------------------------------------------
+def set_key(I, x):
+    """hash/equality key of a set element: bytes are their own key; Serializable objects
+    compare and hash by their serialisation"""
+    if I.is_seqlike(x):
+        return x
+    t = I.pytype(x)
+    if isinstance(t, type):
+        ser = I.find_class_attr(t, 'serialize')
+        hf = I.find_class_attr(t, '__hash__')
+        if isinstance(ser, types.FunctionType) and isinstance(hf, types.FunctionType):
+            return I.call_value(ser, [x], {})
+    if isinstance(x, int) and not isinstance(x, bool):
+        return str(x).encode()
+    raise OutOfReach('set element %r' % (x,))
+
+
 def set_contains(I, c, x):
+    k = set_key(I, x)
     ts = []
     for e in c.items:
-        t = I.equal_term(e, x)
+        t = I.equal_term(e, k)
         if t is True:
             return True
         if t is not False:
             ts.append(t)
     if c.sym is not None:
-        mem, _ = c.sym
-        ts.append(mem(I.set_key(x)))
+        ts.append(z3.Contains(c.sym, z3.Unit(I.kind_unwrap(KBYTES(bytes), k))))
     if not ts:
         return False
     return I.wrap_bool(z3.Or(*ts))
@@ -1485,9 +1503,27 @@ def set_contains(I, c, x):
 @meth('set', 'add')
 def _(I, sv, args, kwargs):
     c = I.cell(sv)
-    I.setcell(sv, SetCell(items=c.items + (args[0],), sym=c.sym))
+    k = set_key(I, args[0])
+    I.setcell(sv, SetCell(items=c.items + (k,), sym=c.sym))
     return None
 
 
 def havoc_set(I, ref, name):
-    raise OutOfReach('set mutated in loop (needs ghost model)')
+    I.setcell(ref, SetCell(items=(), sym=I.fresh_const(name, SeqBoxS)))
+
+
+def m_set_keys(I, args, kwargs):
+    """keys of a set in insertion order (ghost view used in invariants)"""
+    c = I.cell(args[0])
+    ek = KBYTES(bytes)
+    parts = [] if c.sym is None else [c.sym]
+    parts += [z3.Unit(I.kind_unwrap(ek, k)) for k in c.items]
+    if not parts:
+        return ()
+    return STup(parts[0] if len(parts) == 1 else z3.Concat(*parts), ek)
+
+
+def m_seq_contains(I, args, kwargs):
+    t, x = args
+    ek = I.seq_elem_kind(t) or KBYTES(bytes)
+    return I.wrap_bool(z3.Contains(I.any_seq_term_k(t, ek), z3.Unit(I.kind_unwrap(ek, x))))
